@@ -3,6 +3,7 @@ import Swat4.Model.QueueSys
 import Swat4.Properties.C10
 import Swat4.Lemmas.QueueSys
 import Swat4.Lemmas.QueueDeliver
+import Swat4.Lemmas.QueuePopBound
 /-!
 # C12 — Every queued probe is delivered at most once, on time and in order
 
@@ -989,6 +990,121 @@ example : ∀ j, ¬ HandedTo (reach pastExpiry [.run 0, .run 1]) 0 j := by
   have henqs : (reach pastExpiry [.run 0, .run 1]).enqs = [⟨0, 0, wp1, some 50, 100, 100⟩] := by rfl
   exact (implicit_ready_past_expiry_never_delivered pastExpiry pastExpiry_init harr [.run 0, .run 1] hm
     ⟨0, 0, wp1, some 50, 100, 100⟩ (by rw [henqs]; exact List.mem_singleton.2 rfl) 50 rfl (by decide)).2
+
+end Swat4.C12
+
+/-! # Additions (review round 2): how long a `PopMany` runs under interference
+
+`PopMany` has no WATCH / retry loop (nothing like C09's `MaxAttempts`), but it loops "until the batch is full or a round
+finds nothing", and a round that finds only *expired* entries leaves the batch as it was.  So there is **no bound in terms
+of `n` alone**: producers that keep enqueueing already-expired probes keep a consumer busy (`popMany_fed_witness`).  What
+holds, for every interleaving: the number of storage commands the call executes is at most
+`2 · (n + number of expired entries it dropped) + 2` (`popMany_own_commands_bounded`) — every command but the last
+consumes at least half an entry — and a command of a live call is never refused or repeated (`popMany_command_progress`:
+one `qstep`, for every store / clock the other clients may have left).  The honest fairness hypothesis for "terminates" is
+therefore: *only finitely many expired entries are ever offered to it*. -/
+namespace Swat4.C12
+open Swat4 Std
+
+/-- **one command = one unit of progress, whatever the others did** (machine level): for every store, clock and id
+counter — i.e. whatever other clients did since the call's previous command — a command of a live `PopMany n` call
+strictly raises the potential `QPC.prog` (twice the entries consumed so far: held + counted expired, plus the position
+in the round), and leaves the call at a `PopMany` pc.  There is no command that is retried. -/
+theorem popMany_command_progress (st : RStore) (clock : Int) (fresh : Nat) (n : Int) (pc : QPC) (hl : pc.live = true)
+    (hok : okFor (.popMany n) pc) :
+    pc.prog < (qstep st clock fresh (.popMany n) pc).2.1.prog ∧
+    okFor (.popMany n) (qstep st clock fresh (.popMany n) pc).2.1 :=
+  qstep_pop_prog st clock fresh n pc hl hok
+
+/-- **bound on a `PopMany` call's own commands in any interleaving.**  From any admissible initial system in which client
+`i` is a `PopMany n` call, along **every** event list (other consumers and producers stepping in between, ticks of either
+sign, deaths), the number of storage commands client `i` executes (`QSys.ownCmds`: the trace labels the model emits for
+`i`'s events) is at most `2 · (n + E) + 2`, where `E = expOf i pops` is the number of expired entries the call has dropped
+so far.  In particular a call that meets no expired entry executes at most `2n + 2` commands. -/
+theorem popMany_own_commands_bounded (s0 : QSys) (h0 : s0.Init) (i : Nat) (c0 : QClient) (n : Int)
+    (hc0 : s0.clients[i]? = some c0) (hop0 : c0.op = .popMany n) (es : List QSysEv) :
+    QSys.ownCmds i s0 es ≤ 2 * (n.toNat + expOf i (reach s0 es).pops) + 2 := by
+  have hP0 : s0.PopAt i n := by
+    refine ⟨c0, hc0, hop0, fun hs => ?_⟩
+    rw [(h0.clients c0 (List.mem_of_getElem? hc0)).2 hs, ← hop0]
+    exact okFor_begin c0.op
+  obtain ⟨⟨c, hc, hop, _⟩, hle⟩ := QSys.ownCmds_le_prog hP0 es
+  have hrun : s0.run es = (reach s0 es).sys := (ghost_faithful s0 es).symm
+  rw [hrun] at hc hle
+  have hprog : (reach s0 es).sys.progOf i = c.prog := by simp only [QSys.progOf, hc]
+  rw [hprog] at hle
+  suffices hb : c.prog ≤ 2 * (n.toNat + expOf i (reach s0 es).pops) + 2 by omega
+  unfold QClient.prog
+  by_cases hs : c.started = true
+  · simp only [hs, if_true]
+    have h := (((GInv.init h0).run es).clients i c hc).pc hs
+    rw [hop] at h
+    cases hpc : c.pc with
+    | popRange got e =>
+      rw [hpc] at h
+      have h1 : e = expOf i (reach s0 es).pops := h.2.1
+      have h2 := h.2.2
+      simp only [QPC.prog]; omega
+    | popExec got e ids scs =>
+      rw [hpc] at h
+      have h1 : e = expOf i (reach s0 es).pops := h.2.1
+      have h2 := h.2.2.2.1
+      simp only [QPC.prog]; omega
+    | done r =>
+      rw [hpc] at h
+      cases r with
+      | probes ps e =>
+        have h1 : e = expOf i (reach s0 es).pops := h.2.1
+        have h2 := h.2.2
+        simp only [QPC.prog]; omega
+      | _ => simp [QPC.prog]
+    | _ => simp [QPC.prog]
+  · have hs' : c.started = false := by simpa using hs
+    simp only [hs', Bool.false_eq_true, if_false]
+    rw [hop]
+    simp only [QOp.begin]
+    split <;> simp [QPC.prog]
+
+/-- a `step` event of a client that is not dead and stands at a live pc always executes exactly one command (so the
+bound above is a bound on how often the call can be *scheduled* before it has returned) -/
+theorem live_step_executes (s : QSys) (i : Nat) (c : QClient) (hc : s.clients[i]? = some c) (hd : c.dead = false)
+    (hl : (c.start s.clock).pc.live = true) : (s.stepT [] (.step i)).2.length = 1 := by
+  simp [QSys.stepT, QSys.stepClient, hc, hd, hl]
+
+def xp1 : Probe := ⟨⟨1, 10481⟩, 10481, .details, 0, 3⟩
+
+/-- clock 100; three producers each enqueue a probe that is already expired (implicit ready time 100, expiry 50 — see
+`implicit_ready_past_expiry_is_queued`); consumer 3 is a `PopMany 1` -/
+def fed : QSys :=
+  { clock := 100
+    clients := [{ op := .enqueue xp1 none (some 50), pc := .start },
+                { op := .enqueue xp1 none (some 50), pc := .start },
+                { op := .enqueue xp1 none (some 50), pc := .start },
+                { op := .popMany 1, pc := .start }] }
+
+/-- a producer runs before each round of the consumer -/
+def fedEvents : List QSysEv :=
+  [.run 0, .step 3, .step 3, .run 1, .step 3, .step 3, .run 2, .step 3, .step 3, .step 3]
+
+theorem fed_init : fed.Init := by
+  refine ⟨RStore.consistent_empty, fun id => by simp [fed], ?_⟩
+  intro c hc
+  simp only [fed, List.mem_cons, List.not_mem_nil, or_false] at hc
+  rcases hc with rfl | rfl | rfl | rfl <;> exact ⟨rfl, fun h => by cases h⟩
+
+set_option maxRecDepth 100000 in
+/-- **no bound in `n` alone** (`popMany_fed_witness`): fed one expired entry before each round, a `PopMany 1` executes 7
+commands (three full rounds and the final empty `ZRANGEBYSCORE`) and returns an empty batch with 3 counted expired; with
+`k` such producers it executes `2k + 1`.  The bound of `popMany_own_commands_bounded` is `2·(1+3)+2 = 10` here. -/
+theorem popMany_fed_witness :
+    fed.Init ∧ QSys.ownCmds 3 fed fedEvents = 7 ∧
+    ((reach fed fedEvents).sys.clients[3]?).map (·.pc) = some (.done (.probes [] 3)) ∧
+    expOf 3 (reach fed fedEvents).pops = 3 :=
+  ⟨fed_init, by rfl, by rfl, by rfl⟩
+
+/-- non-vacuity of `popMany_own_commands_bounded` on that schedule -/
+example : QSys.ownCmds 3 fed fedEvents ≤ 2 * ((1 : Int).toNat + expOf 3 (reach fed fedEvents).pops) + 2 :=
+  popMany_own_commands_bounded fed fed_init 3 { op := .popMany 1, pc := .start } 1 rfl rfl fedEvents
 
 end Swat4.C12
 
